@@ -287,6 +287,113 @@ def server_start(ctx):
                           observed=repr(e))
 
 
+def loop_wiring(ctx, only=None):
+    """'With latency control enabled … asks the peer for an acknowledgement; with latency control disabled no pauses
+    are introduced' is decided by how the two MAIN LOOPS call check_fullness, not by Mux alone: the real server.main
+    and the real client._main are run for one iteration in which the budget they were CONFIGURED with has just been
+    exceeded (select reports nothing, so the real runonce makes an idle pass); after that iteration the end must be
+    paused with one rttest PING queued if and only if it was started with latency control on — wherever the call to
+    check_fullness lives (in the loop, in runonce, behind whichever flag)."""
+    import sshuttle.server as server
+    import sshuttle.client as client
+    import sshuttle.ssnet as ssnet
+    import sshuttle.helpers as helpers
+    from sshuttle import ssh as ssh_mod
+    from props import c07
+
+    class Halt(Exception):
+        pass
+
+    def one(end, lc, size):
+        state = {}
+        real_runonce = ssnet.runonce
+        real_select = ssnet.select
+        saved = dict(buf=ssnet.LATENCY_BUFFER_SIZE, nbio=ssnet.set_non_blocking_io, stderr=sys.stderr, stdout=sys.stdout,
+                     verbose=helpers.verbose, io=server.io, connect=ssh_mod.connect)
+
+        class NoSelect:
+            def select(self, r, w, x, *a):
+                return [], [], []
+
+            def __getattr__(self, n):
+                return getattr(real_select, n)
+
+        def wrapped(handlers, mux, *a, **k):
+            if 'mux' in state:
+                raise Halt()
+            state['mux'] = mux
+            mux.too_full = False
+            del mux.outbuf[:]
+            mux.fullness = size + 1            # this pass queued one byte more than the configured budget
+            return real_runonce(handlers, mux, *a, **k)
+
+        class FakeIoMod:
+            @staticmethod
+            def FileIO(fd, mode='r'):
+                return ts.DummyFile(902 + fd)
+        ssnet.set_non_blocking_io = lambda fd: None
+        ssnet.select = NoSelect()
+        ssnet.runonce = wrapped
+        sys.stderr = io.StringIO()
+        sys.stdout = io.StringIO()
+        helpers.verbose = 0
+        err = None
+        try:
+            try:
+                if end == 'server':
+                    server.io = FakeIoMod
+                    server.main(lc, size, False, None, False)
+                else:
+                    stream = b'\0\0SSHUTTLE0001'
+                    proc = c07.FakeProc()
+                    proc.poll = lambda: None
+                    ssh_mod.connect = lambda *a, **k: (proc, c07.RawReader([stream]), c07.ScriptedW())
+                    # cmdline.main is what sets the budget on the client side (cmdline.py: ssnet.LATENCY_BUFFER_SIZE = …)
+                    ssnet.LATENCY_BUFFER_SIZE = size
+                    client._main(c07.FakeListener(), None, c07.FakeFw(), None, 'host', None, lc, size,
+                                 None, None, False, False, False, None, False, None)
+            except Halt:
+                pass
+            except Exception as e:  # noqa
+                err = '%s: %s' % (type(e).__name__, str(e)[:120])
+        finally:
+            ssnet.runonce = real_runonce
+            ssnet.select = real_select
+            ssnet.LATENCY_BUFFER_SIZE = saved['buf']
+            ssnet.set_non_blocking_io = saved['nbio']
+            sys.stderr, sys.stdout = saved['stderr'], saved['stdout']
+            helpers.verbose = saved['verbose']
+            server.io = saved['io']
+            ssh_mod.connect = saved['connect']
+        mux = state.get('mux')
+        if mux is None:
+            return 'the loop was never entered (%s)' % err
+        pings = [f for f in frames_of(mux, 0) if f[1] == ssnet.CMD_PING and f[3] == b'rttest']
+        if err:
+            return 'the loop ended with %s' % err
+        if lc and (not mux.too_full or len(pings) != 1):
+            return 'latency control ON, %d bytes queued against a budget of %d: too_full=%s, rttest PINGs=%d' % (
+                size + 1, size, mux.too_full, len(pings))
+        if not lc and (mux.too_full or pings):
+            return 'latency control OFF: too_full=%s, rttest PINGs=%d' % (mux.too_full, len(pings))
+        return None
+
+    for end in ('server', 'client'):
+        for lc in (True, False):
+            for size in (2048, 32768, 100000):
+                if only is not None and only != [end, lc, size]:
+                    continue
+                ctx.count()
+                ctx.hist('loop-wiring')
+                ctx.mark(('loop-wiring', end, lc, size), True)
+                bad = one(end, lc, size)
+                if bad:
+                    ctx.violation('C09:wiring:%s-loop-%s' % (end, 'does-not-check-fullness' if lc else 'pauses-with-latency-control-off'),
+                                  case=dict(kind='loop-wiring', end=end, latency_control=lc, size=size),
+                                  expected='after an iteration that exceeded the configured budget: paused with one rttest PING '
+                                           'iff latency control is on', observed=bad)
+
+
 def server_loop_keeps_answering(ctx, only=None):
     """'Every such request is eventually answered' needs the server's loop to come back to select: a handler that
     blocks (reads again from a descriptor select did not report) stops every PONG.  Real server.main wiring, real
@@ -375,6 +482,7 @@ def run(ctx):
     rng = ctx.rng
     tg.set_verbosity_seed(ctx.seed)
     server_start(ctx)
+    loop_wiring(ctx)
     server_loop_keeps_answering(ctx)
     all_in, all_out = [], []
     for tag, fn in ([('bound-%d' % b, (lambda b=b: queued_payload_bound(ctx, rng, b))) for b in (2048, 5000)] +
@@ -457,6 +565,10 @@ def replay(ctx, rep):
         server_start(c2)
         hit = [v for v in c2.violations if v['key'] == rep['key']]
         return bool(hit), (hit[0]['observed'] if hit else 'server starts')
+    if case.get('kind') == 'loop-wiring':
+        c2 = type(ctx)(ctx.prop_id, 'quick', 0)
+        loop_wiring(c2, only=[case['end'], case['latency_control'], case['size']])
+        return bool(c2.violations), (str(c2.violations[0]['observed']) if c2.violations else 'the loop checks fullness iff latency control is on')
     if case.get('kind') == 'hostwatch-burst':
         c2 = type(ctx)(ctx.prop_id, 'quick', 0)
         server_loop_keeps_answering(c2, only=case['size'])
